@@ -134,7 +134,7 @@ def wrapper_facts(mod):
     """EVALUATED on the real classes: what `ChaperoneLoop` does to the Chaperone it is handed (construction; one healing
     run over a misfold followed by clean JSON), and what `BioAgent` constructs as its organelle.  None = not observable."""
     facts = {"ctor_calls": None, "ctor_leaves": None, "heal_calls": None, "heal_leaves": None, "agent_default": None,
-             "exports_same": None}
+             "exports_same": None, "omitted_is_none": None}
     try:
         from pydantic import BaseModel
         import operon_ai.healing.chaperone_loop as loop_mod
@@ -186,6 +186,14 @@ def wrapper_facts(mod):
             top.ChaperoneLoop is loop_mod.ChaperoneLoop, heal.ChaperoneLoop is loop_mod.ChaperoneLoop,
             top.HealingResult is loop_mod.HealingResult, loop_mod.Chaperone is mod.Chaperone,
             loop_mod.EnhancedFoldedProtein is mod.EnhancedFoldedProtein])
+    except Exception:
+        pass
+    try:
+        import inspect
+        facts["omitted_is_none"] = all(
+            inspect.signature(f).parameters["strategies"].default is None
+            for f in (mod.Chaperone.__init__, mod.Chaperone.fold, mod.Chaperone.fold_enhanced)) and all(
+            inspect.signature(mod.Chaperone.__init__).parameters[k].default is None for k in ("co_chaperones", "on_misfold"))
     except Exception:
         pass
     return facts
@@ -288,6 +296,9 @@ def generate(repo: Path, mod) -> str:
     out.append("/-- `operon_ai`, `operon_ai.organelles`, `operon_ai.healing` export the very classes the modules define (Chaperone,")
     out.append("    FoldingStrategy, FoldedProtein, EnhancedFoldedProtein, ChaperoneLoop, HealingResult), and the loop module uses them -/")
     out.append(f"def exportsAreTheDefinitions : Option Bool := {boolean(wf.get('exports_same'))}")
+    out.append("/-- the `strategies` parameter of `__init__`, `fold`, `fold_enhanced` (and `co_chaperones`, `on_misfold` of `__init__`)")
+    out.append("    default to `None`: an omitted argument is `None` -/")
+    out.append(f"def omittedArgumentIsNone : Option Bool := {boolean(wf.get('omitted_is_none'))}")
     out.append("")
     out.append("end Operon.Gen.ChaperoneTables")
     return "\n".join(out) + "\n"
